@@ -6,7 +6,6 @@ from email.header import Header
 from mailbox import Maildir, Message, mbox
 
 from pygopherd import GopherExceptions, gopherentry
-from pygopherd.handlers.base import VFS_Real
 from pygopherd.handlers.virtual import Virtual
 
 
@@ -57,6 +56,8 @@ class MessageHandler(Virtual):
         """We put MBOX-MESSAGE in here so we don't have to re-check
         the first line of the mbox file before returning a true or false
         result."""
+        if not self.vfs.isreal():
+            return False
         if not self.selectorargs or not self.statresult:
             # No arguments, or the mailbox itself does not exist.
             return False
@@ -133,7 +134,7 @@ class MBoxFolderHandler(FolderHandler):
         """Figure out if this is a handleable request."""
         # Must be a real file
         if (
-            not isinstance(self.vfs, VFS_Real)
+            not self.vfs.isreal()
             or self.selectorargs
             or not self.statresult
             or not stat.S_ISREG(self.statresult[stat.ST_MODE])
@@ -178,7 +179,7 @@ class MBoxMessageHandler(MessageHandler):
 
 class MaildirFolderHandler(FolderHandler):
     def canhandlerequest(self):
-        if not isinstance(self.vfs, VFS_Real):
+        if not self.vfs.isreal():
             return 0
         if self.selectorargs:
             return 0
